@@ -421,6 +421,7 @@ func record(r *mc.Run, c Case, kind, detail string) {
 func TestCheck(t *testing.T) {
 	r := mc.New(t, "C16")
 	defer r.Finish()
+	r.CrashFails = true
 	if r.Replay != nil {
 		var c Case
 		r.DecodeReplay(&c)
